@@ -29,6 +29,17 @@ pub use peer::Peer;
 mod request_handler;
 mod wire;
 
+#[cfg(bmwill_anemo_verif)]
+pub(crate) mod verif_exports {
+    pub(crate) use super::connection_manager::{
+        verif_active_peers_add as active_peers_add, verif_tie_break as tie_break, ActivePeers,
+    };
+    pub(crate) use super::wire::{
+        network_message_frame_codec as frame_codec, read_request, read_response,
+        read_version_frame, write_request, write_response, write_version_frame,
+    };
+}
+
 #[cfg(test)]
 mod tests;
 
